@@ -5,4 +5,6 @@ CONSTANTS
   Scenarios <- ScnProvQ
   Focus = "prov"
 INVARIANT GenInv
+INVARIANT TxnLockAgree
+INVARIANT DoneMeansCommitted
 CHECK_DEADLOCK FALSE
